@@ -321,6 +321,12 @@ def cases(tier):
     for f in RECORDED:
         for m in meths:
             cs.append({"kind": "regular", "method": m, "recorded": f})
+    # a curve recorded at a high sampling rate (approach part longer than
+    # 2**15 samples), contact in the second half
+    for m in meths:
+        cs.append({"kind": "regular", "method": m, "model": "hertz_para",
+                   "noise": 0.0, "baseline_fraction": 2 / 3, "tilt": 0.0,
+                   "n": 40000})
     for iu in INT_UNITS:
         for noise in (0.0, 0.02):
             for m in meths:
